@@ -154,6 +154,9 @@ impl Prop for C07 {
         k.input = rng.chance(2, 3);
         k.stop = rng.chance(1, 2);
         k.pure_fn_bodies = true;
+        // INPUT C(INT(RND(1) * 3)): a target whose subscript has a side effect; a break while the request
+        // is pending must not evaluate it again
+        k.rnd_input_subscript = rng.chance(1, 2);
         k.special_defs = rng.chance(2, 3);
         k.failures = rng.chance(1, 4);
         k.max_lines = 4 + rng.usize(20);
